@@ -232,6 +232,12 @@ def run(tier):
     import c16_selector
 
     c16_selector.register_all(ck, tier)
+    # "an evicted or failed peer appears in no closest-node answer until it is added again": the routing-table removal reached through the
+    # async engine API (same builders and native driver as C02's engine obligations)
+    import c02
+
+    for params, tag in c02.engine_cases(only_removal=True):
+        ck.guarded(tag, lambda params=params, tag=tag: c02.register(ck, tag, "engine_ops", params, c02.builder_for(ck, "engine_ops", params)))
     ck.run_queries()
     import kanicheck
 
@@ -239,7 +245,9 @@ def run(tier):
                         timeout_s=2400, logname="c16-kani-" + tier)
     ck.out.bounds = ["EvictionManager: one event (failure / success / trust update / mark / forget) or one query from an ARBITRARY manager state (three HashMaps as SMT arrays over 256-bit ids), two distinct symbolic node ids, symbolic thresholds",
                      "consecutive counter < 2^31, totals < 2^62 (overflow of the statistics counters needs that many events)"] + c16_selector.BOUNDS
-    ck.out.outside = ["DhtCoreEngine::{evict_node, handle_node_failure, select_query_peers, select_storage_peers} (async)", "the maintenance task that applies evictions",
+    ck.out.bounds.append("routing removal through the async engine API on one table layout ([3,7], <= 2 peers per bucket, count <= 2): handle_node_failure / evict_node of a listed peer "
+                         "(optionally re-announced under another address first) followed by find_nodes: the peer appears in no answer and the answer is exact over the remaining peers")
+    ck.out.outside = ["DhtCoreEngine::{select_query_peers with trust enabled, select_storage_peers} (async)", "the maintenance task that applies evictions",
                       "get_eviction_candidates on managers tracking more than two peers (the listing obligation uses a finite manager with two arbitrary peers)"] + c16_selector.OUTSIDE
     ck.out.assumptions = ["single-threaded execution"] + c16_selector.ASSUMPTIONS
     ck.out.trusted.append("z3 4.8.12 / z3 5.1 / cvc5 1.0 portfolio")
@@ -252,6 +260,10 @@ def replay(path):
     def rebuild(ck, driver, params):
         if driver == "eviction_op":
             return lambda s, obs: build_eviction(ck, params["op"], s, obs)["goals"]
+        if driver == "engine_ops":
+            import c02
+
+            return c02.builder_for(ck, driver, params)
         return c16_selector.rebuild(ck, driver, params)
 
     return harness.replay_file(path, rebuild)
